@@ -124,17 +124,18 @@ Theorem C08_wrapper_eq_iff_pairs_permutation :
 Proof. exact w_eq_iff_pairs_permutation. Qed.
 Print Assumptions C08_wrapper_eq_iff_pairs_permutation.
 
+(* operator== for ARBITRARY keys (key = (equivalence class, identity); key_eq sees the class, the key's operator==
+   sees both): true iff the multisets of (key identity, value) pairs are equal.  No plain_keys assumption. *)
+Theorem C08_wrapper_eq_iff_keyed_pairs_permutation :
+  forall l r : mm, WInv l -> WInv r -> (w_eq l r = true <-> Permutation (kpairs l) (kpairs r)).
+Proof. exact w_eq_iff_keyed_pairs_permutation. Qed.
+Print Assumptions C08_wrapper_eq_iff_keyed_pairs_permutation.
+
 (* every reachable HashMultiMap state satisfies the hypothesis WInv of the wrapper theorems *)
 Theorem C08_wrapper_inv_from_history :
   forall (M : Z) (m : mm), Inv M m -> WInv m.
 Proof. exact inv_winv. Qed.
 Print Assumptions C08_wrapper_inv_from_history.
-
-(* ... and plain keys stay plain under every HashMultiMap operation the wrapper issues (tags 0) and under copies *)
-Theorem C08_wrapper_plain_keys_preserved :
-  forall (M : Z) (m : mm) (o : op), plain_keys (fst m) -> op_plain o -> plain_keys (fst (step1 M m o)).
-Proof. exact plain_step1. Qed.
-Print Assumptions C08_wrapper_plain_keys_preserved.
 
 (* count(k) = number of pairs with key k; hence it depends only on the multiset of pairs *)
 Theorem C08_wrapper_count_is_pair_count :
@@ -208,3 +209,93 @@ Theorem C08_nonvacuous_erase_range_cases :
   (match w_erase_range 7 w3 1 2 with ErOk m => pairs m | ErThrow => [] end) = [(0, 4); (0, 6)].
 Proof. exact ex_erase_range. Qed.
 Print Assumptions C08_nonvacuous_erase_range_cases.
+
+(* ------------------------------------------------------------------ round 2: copy / move of a value array *)
+(* ArrayBucket(Params&, const ArrayBucket&): the copy is TIGHT -- state byte recomputed as pvMakeState(count, count)
+   (pool index = count, never the source's byte), a heap copy has capacity = count; equal content; source untouched *)
+Theorem C08_arraybucket_copy_is_tight :
+  forall (M : Z) (src : ab), 0 < M < 16 -> ab_inv M src ->
+  let sd := ab_copy_from M src in
+  let n := Z.of_nat (length (snd src)) in
+  fst sd = src /\ snd (snd sd) = snd src /\ ab_inv M (snd sd) /\
+  match fst (snd sd) with
+  | RNull => n = 0
+  | RFast st => 1 <= n <= M /\ st = make_state n n /\ st = 16 * n + n /\ pool_of st = n /\ fcount_of st = n
+  | RHeap cap cnt => M < n /\ cap = n /\ cnt = n
+  | RStuck => False
+  end.
+Proof. exact ab_copy_tight. Qed.
+Print Assumptions C08_arraybucket_copy_is_tight.
+
+Theorem C08_arraybucket_move :
+  forall (M : Z) (src : ab), ab_inv M src ->
+  fst (ab_move_from src) = ab_null /\ snd (ab_move_from src) = src /\ ab_inv M (fst (ab_move_from src)).
+Proof. exact ab_move_spec. Qed.
+Print Assumptions C08_arraybucket_move.
+
+(* ------------------------------------------------------------------ round 2: exceptions (failure schedules) *)
+(* AddBackCrt under any failure schedule: a throw leaves the representation as it was, otherwise it is add_back *)
+Theorem C08_arraybucket_add_failure :
+  forall (M : Z) (r : repr) (fs : list bool),
+  let '(r', threw, _) := add_back_f M r fs in
+  (threw = true -> r' = r) /\ (threw = false -> r' = add_back M r).
+Proof. exact add_back_f_spec. Qed.
+Print Assumptions C08_arraybucket_add_failure.
+
+(* RemoveBack never throws; a failed Shrink is swallowed: same count, legal representation, at most the capacity differs *)
+Theorem C08_arraybucket_swallowed_shrink_failure :
+  forall (M : Z) (r : repr) (fs : list bool), repr_inv M r -> 1 <= rcount r ->
+  let r' := fst (remove_back_f r fs) in
+  repr_inv M r' /\ rcount r' = rcount r - 1 /\
+  (r' = remove_back r \/ exists cap cnt, r = RHeap cap cnt /\ 2 < cnt /\ r' = RHeap cap (cnt - 1)).
+Proof. exact remove_back_f_spec. Qed.
+Print Assumptions C08_arraybucket_swallowed_shrink_failure.
+
+(* HashMultiMap: a call that throws (Add / Add(keyIter) whose value-array allocation fails or whose new key cannot be
+   placed; RemoveKey whose mHashMap.Remove throws, rolled back as coded) leaves the container EXACTLY as it was *)
+Theorem C08_mm_throwing_call_leaves_container_unchanged :
+  forall (M : Z) (m : mm) (o : op) (fs : list bool) (m' : mm) (fs' : list bool),
+  step1f M m o fs = (m', true, fs') -> m' = m.
+Proof. exact step1f_throw_unchanged. Qed.
+Print Assumptions C08_mm_throwing_call_leaves_container_unchanged.
+
+Theorem C08_mm_nonthrowing_call_under_failures :
+  forall (M : Z) (m : mm) (o : op) (fs : list bool) (m' : mm) (fs' : list bool), 0 < M < 16 -> Inv M m ->
+  step1f M m o fs = (m', false, fs') ->
+  Inv M m' /\ (forall x, abs (fst m') x = abs (fst (step1 M m o)) x) /\ snd m' = snd (step1 M m o).
+Proof. exact step1f_ok. Qed.
+Print Assumptions C08_mm_nonthrowing_call_under_failures.
+
+(* all histories, every call with its own failure schedule: invariants hold and the mapping is that of the history
+   with the throwing calls deleted *)
+Theorem C08_mm_failures_all_histories :
+  forall (M : Z) (ops : list (op * list bool)), 0 < M < 16 ->
+  forall (m : mm) (s : sp), Inv M m -> (forall x, abs (fst m) x = s x) ->
+  let '(mf, done) := runf1 M m ops in
+  Inv M mf /\ (forall x, abs (fst mf) x = fold_left sp_step1 done s x) /\ snd mf = sumlen (fst mf).
+Proof. exact mm_failures_all_histories_thm. Qed.
+Print Assumptions C08_mm_failures_all_histories.
+
+(* ------------------------------------------------------------------ round 2: the iterator Remove / MakeIterator return *)
+(* pvMakeIterator(key, valueIndex, move = true) (what Remove(iter) returns, on the new state): continuing the traversal
+   from it yields exactly the rest of the traversal from the flat position of (key, valueIndex) -- the value swapped
+   into the hole, or the first pair of the next key with values, or end -- for EVERY order of the keys *)
+Theorem C08_remove_returns_rest_of_traversal :
+  forall (es : list entry) (k : Z) (i : nat) (e : entry) (n : nat),
+  find k es = Some e -> (i <= length (evals e))%nat -> (Z.to_nat (sumlen es) <= n)%nat ->
+  traverse_from (S n) (iter_at_key es k i) = skipn (flat_pos es k i) (all_pairs es).
+Proof. exact iter_at_key_continues. Qed.
+Print Assumptions C08_remove_returns_rest_of_traversal.
+
+Theorem C08_nonvacuous_eq_sees_key_identity :
+  w_eq kl kr = false /\ pairs kl = pairs kr /\ w_eq kl kl = true.
+Proof. exact ex_eq_sees_key_identity. Qed.
+Print Assumptions C08_nonvacuous_eq_sees_key_identity.
+
+Theorem C08_nonvacuous_failures :
+  step1f 2 mf (ORemoveKey 1) [true] = (mf, true, []) /\
+  step1f 2 mf (OAdd 1 0 99) [true] = (mf, true, []) /\
+  fst (fst (step1f 2 mf (OAdd 1 0 99) [false])) = step1 2 mf (OAdd 1 0 99) /\
+  remove_back_f (RHeap 16 4) [true] = (RHeap 16 3, []) /\ remove_back_f (RHeap 16 4) [false] = (RHeap 8 3, []).
+Proof. exact ex_failures. Qed.
+Print Assumptions C08_nonvacuous_failures.
